@@ -113,6 +113,70 @@ func ctxAddCallEffects(r *Repo, call *ast.CallExpr, recv string, resets map[stri
 			out["params"] = true
 			out["skipNds"] = true
 		}
+	default:
+		// a helper of the package that receives the context (as an argument or as its receiver): the fields it assigns
+		ctxHelperEffects(r, call, recv, resets, out)
+	}
+}
+
+var ctxHelperDepth int
+
+func ctxHelperEffects(r *Repo, call *ast.CallExpr, recv string, resets map[string]ctxFieldSet, out ctxFieldSet) {
+	if ctxHelperDepth > 2 {
+		return
+	}
+	find := func(name string, method bool) *ast.FuncDecl {
+		for fname, f := range r.Files {
+			if strings.Contains(fname, "/") {
+				continue
+			}
+			for _, d := range f.Decls {
+				fd, ok := d.(*ast.FuncDecl)
+				if !ok || fd.Body == nil || fd.Name.Name != name {
+					continue
+				}
+				if method && fd.Recv != nil && len(fd.Recv.List) == 1 && recvName(fd.Recv.List[0].Type) == "cTx" {
+					return fd
+				}
+				if !method && fd.Recv == nil {
+					return fd
+				}
+			}
+		}
+		return nil
+	}
+	inner := ""
+	var fd *ast.FuncDecl
+	switch f := call.Fun.(type) {
+	case *ast.Ident:
+		fd = find(f.Name, false)
+		if fd != nil && fd.Type.Params != nil {
+			pos := 0
+			for _, fl := range fd.Type.Params.List {
+				for _, nm := range fl.Names {
+					if pos < len(call.Args) && r.Text(call.Args[pos]) == recv {
+						inner = nm.Name
+					}
+					pos++
+				}
+			}
+		}
+	case *ast.SelectorExpr:
+		if r.Text(f.X) == recv {
+			fd = find(f.Sel.Name, true)
+			if fd != nil && len(fd.Recv.List[0].Names) == 1 {
+				inner = fd.Recv.List[0].Names[0].Name
+			}
+		}
+	}
+	if fd == nil || inner == "" {
+		return
+	}
+	ctxHelperDepth++
+	eff := ctxAssignedIn(r, fd.Body, inner, resets)
+	ctxHelperDepth--
+	for k := range eff {
+		out[k] = true
 	}
 }
 
@@ -355,6 +419,14 @@ func genCtxFields(r *Repo) (string, error) {
 						if u, ok := x.Rhs[i].(*ast.UnaryExpr); ok && u.Op.String() == "&" {
 							if id, ok := u.X.(*ast.Ident); ok {
 								bufStore[f] = id.Name
+								continue
+							}
+						}
+						// cp.f = helper(c.g) where the helper returns the address of a fresh make+copy of its argument
+						if call, ok := x.Rhs[i].(*ast.CallExpr); ok && len(call.Args) == 1 {
+							src := strings.Join(strings.Fields(r.Text(call.Args[0])), "")
+							if fn, ok := call.Fun.(*ast.Ident); ok && strings.HasPrefix(src, "c.") && ctxHelperIsMakeCopy(r, fn.Name) {
+								bufForms = append(bufForms, f+" <- make+copy of "+src)
 								continue
 							}
 						}
@@ -608,4 +680,44 @@ func tsrCond(r *Repo, e ast.Expr) (bool, bool) {
 		}
 	}
 	return false, false
+}
+
+// ctxHelperIsMakeCopy: `func name(p *Params) *Params { l := make(Params, len(*p)); copy(l, *p); return &l }` (any local names)
+func ctxHelperIsMakeCopy(r *Repo, name string) bool {
+	for fname, f := range r.Files {
+		if strings.Contains(fname, "/") {
+			continue
+		}
+		for _, d := range f.Decls {
+			fd, ok := d.(*ast.FuncDecl)
+			if !ok || fd.Recv != nil || fd.Body == nil || fd.Name.Name != name || fd.Type.Params == nil || len(fd.Type.Params.List) != 1 ||
+				len(fd.Type.Params.List[0].Names) != 1 {
+				continue
+			}
+			p := fd.Type.Params.List[0].Names[0].Name
+			local, copied, returned := "", false, false
+			for _, st := range fd.Body.List {
+				switch x := st.(type) {
+				case *ast.AssignStmt:
+					if len(x.Lhs) == 1 && len(x.Rhs) == 1 {
+						if id, ok := x.Lhs[0].(*ast.Ident); ok && strings.Join(strings.Fields(r.Text(x.Rhs[0])), "") == "make(Params,len(*"+p+"))" {
+							local = id.Name
+						}
+					}
+				case *ast.ExprStmt:
+					if strings.Join(strings.Fields(r.Text(x.X)), "") == "copy("+local+",*"+p+")" && local != "" {
+						copied = true
+					}
+				case *ast.ReturnStmt:
+					if len(x.Results) == 1 && strings.Join(strings.Fields(r.Text(x.Results[0])), "") == "&"+local && local != "" {
+						returned = true
+					}
+				default:
+					return false
+				}
+			}
+			return local != "" && copied && returned && len(fd.Body.List) == 3
+		}
+	}
+	return false
 }
